@@ -22,7 +22,9 @@ def judgeOne (spec obs : String) : List String :=
   match spec.splitOn ":", obs.splitOn ":" with
   | [fam, proto, edns, script], [count, rcode, own, src, len, tc, ms, idq] =>
     let sc := parseScript script
-    let udp := proto == "u"
+    -- `j`: a UDP query queued right behind an unparseable datagram from the same socket (C05: the next well-formed
+    -- request is still answered)
+    let udp := proto == "u" || proto == "j"
     let cls := fam ++ proto
     let count := count.toNat?.getD 99
     let len := len.toNat?.getD 0
